@@ -355,6 +355,11 @@ class Gen:
             io_ = P.RecordIO()
             hdr.call(fn, io_, value)
             return io_.ops, "accessor"
+        if variant == "native":
+            # the SoC was configured with csr_ordering="little": LSW at the lowest published address
+            wm = v.wordmaps[name]["json"]
+            bw = v.busword
+            return [("w", a, (value >> (bw * k)) & ((1 << bw) - 1)) for k, a in enumerate(wm)], "lsw-first"
         wm = v.wordmaps[name][variant]
         n, bw = len(wm), v.busword
         return [("w", a, (value >> (bw * (n - 1 - k))) & ((1 << bw) - 1)) for k, a in enumerate(wm)], "msw-first"
@@ -368,8 +373,16 @@ class Gen:
             def compose(vals):
                 return hdr.call(fn, P.RecordIO(vals))
             return io_.ops, compose
-        wm = v.wordmaps[name][variant]
         bw = v.busword
+        if variant == "native":
+            wm = v.wordmaps[name]["json"]
+            def compose(vals):
+                x = 0
+                for w in reversed(vals):
+                    x = (x << bw) | (w & ((1 << bw) - 1))
+                return x
+            return [("r", a) for a in wm], compose
+        wm = v.wordmaps[name][variant]
         def compose(vals):
             x = 0
             for w in vals:
@@ -390,7 +403,7 @@ class Gen:
     def disputed(self, name, variant):
         """this format publishes other addresses for the register than the JSON listing does"""
         wm = self.v.wordmaps[name]
-        return "json" in wm and wm[variant] != wm["json"]
+        return variant != "native" and "json" in wm and wm[variant] != wm["json"]
 
     def add(self, *a, **k):
         self.tests.append(Test(*a, **k))
@@ -404,7 +417,12 @@ class Gen:
                 continue
             self.salt += 1
             nw = v.js["csr_registers"][name]["size"]
-            for variant in self.variants(name):
+            variants = self.variants(name)
+            if b.ordering == "little" and nw > 1 and "json" in v.wordmaps[name]:
+                # multi-word registers of a little-ordered SoC are additionally accessed LSW-first: the published
+                # addr/size must denote the register even though the generated accessors ignore the ordering
+                variants = variants + ["native"]
+            for variant in variants:
                 if r.kind == "storage" or r.wpath is not None:
                     for pi, val in enumerate((pattern(r.size, self.salt), ~pattern(r.size, self.salt) & ((1 << r.size) - 1))):
                         self.write_test(name, r, nw, variant, val, pi)
@@ -795,14 +813,15 @@ def gen_tests(b, v, static_out):
 # ------------------------------------------------------------------------------------------------------------------
 # run one SoC configuration
 # ------------------------------------------------------------------------------------------------------------------
-def rule_of(kind, cfg, reg):
+def rule_of(kind, cfg, reg, variant=None):
     _, _, std, bdw, ic, cdw, paging, ordering, aw, base, menu = cfg
+    if variant == "native" and kind in ("addr", "order"):
+        return "csr.native.little"          # even LSW-first access at the published addresses misses the register
     if kind == "addr":
         return "csr.addr.dw8" if cdw == 8 else "csr.addr"
     if kind == "order":
-        if ordering == "little":
-            return "csr.order.little_atomic" if (reg is not None and reg.atomic) else "csr.order.little"
-        return "csr.order"
+        # generated accessors / SVD sub-register names are MSW-first whatever csr_ordering says
+        return "csr.order.little" if ordering == "little" else "csr.order"
     return {"field": "csr.field", "csrmem": "csr.mem", "busmem": "mem.region", "irq": "irq.number", "image": "memdata.rom",
             "hang": "bus.hang"}[kind]
 
@@ -886,13 +905,22 @@ def run_soc(cfg, seed):
         else:
             if cfg[5] == 8 and any_addr and kind in ("order", "field", "csrmem", "irq"):
                 kind = "addr"      # with 8-bit CSRs nothing answers at the published address: one class, not four
-            rule = rule_of(kind, cfg, reg)
+            rule = rule_of(kind, cfg, reg, t.variant)
         byrule.setdefault(rule, []).append((msg, detail, t))
     violations = []
     for rule, lst in sorted(byrule.items()):
-        msg, detail, t = lst[0]
-        # 1. reproducible from reset on a fresh fast bench?  2. confirmed by LiteX's own simulator?
-        rp = confirm(cfg, t, rule)
+        # the cheapest failing test of the class whose outcome does not depend on earlier tests (it drives / writes what
+        # it compares) is re-run from reset on LiteX's own simulator; at least one member of the class must reproduce
+        selfc = lambda t: t.tid[0] == "w" or t.tid.startswith(("fw", "fr", "cm", "bm", "irq")) or t.target in b.drive
+        lst.sort(key=lambda x: (not selfc(x[2]), x[2].nacc, x[2].tid))
+        rp = None
+        for msg, detail, t in lst[:4]:
+            rp = confirm(cfg, t, rule)
+            if rp is not None:
+                break
+        if rp is None:
+            raise MachineryError(f"{name}: {rule} ({[x[2].tid for x in lst[:4]]}) found with the fast stepper does not reproduce "
+                                 "from reset on litex.gen.sim")
         violations.append(dict(rule=rule, msg=msg + (f" [+{len(lst) - 1} more of this class in this SoC]" if len(lst) > 1 else ""),
                                detail=dict(detail, test=t.tid, others=[x[2].tid for x in lst[1:8]]),
                                trace=[list(map(str, s)) for s in t.script][:40], replayed=rp))
@@ -919,7 +947,7 @@ def confirm(cfg, t, rule):
         res = S.stock_run(b2, t2.script)
     fails = t2.check(res)
     if not fails:
-        raise MachineryError(f"{cfg[0]}: {rule} ({t.tid}) found with the fast stepper does not reproduce from reset on litex.gen.sim")
+        return None
     return dict(reproduced=True, simulator="litex.gen.sim.run_simulation", kinds=sorted({f[0] for f in fails}), msg=fails[0][1])
 
 
